@@ -8,6 +8,7 @@ import threading
 from . import sched
 
 LOG = []          # [thread name, kind, token, args]
+OBJ_HOOK = None   # optional callable(token, kwargs) receiving the real objects a target was called with
 
 
 def _flat(v, out):
@@ -40,6 +41,8 @@ def _make_f(token):
     def f(*args, **kwargs):
         sched.external('call:' + token)
         LOG.append([_who(), 'call', token, _flat([list(args), kwargs], [])])
+        if OBJ_HOOK is not None:
+            OBJ_HOOK(token, kwargs)
         return 'R' + token
     f.__name__ = 'f_' + token
     f.__qualname__ = 'f_' + token
